@@ -288,6 +288,15 @@ func StructBuilder(env *Zlisp, name string,
 		// int64 would replace that type for every interpreter.
 		return SexpNull, fmt.Errorf("bad struct name: '%s' is a built-in type", structName)
 	}
+	if prev, have := GoStructRegistry.Userdef[structName]; have && prev.hasShadowStruct {
+		// likewise a type that the host program registered from Go
+		return SexpNull, fmt.Errorf("bad struct name: '%s' is a type registered by the host program", structName)
+	}
+	if structName == "hash" || structName == "field" || structName == "msgmap" {
+		// records of these names are the untyped ones: the field
+		// check skips them, a declaration would never be enforced.
+		return SexpNull, fmt.Errorf("bad struct name: '%s' names the untyped records", structName)
+	}
 
 	// A declaration that fails further down must not take an earlier
 	// declaration of the same name with it: the placeholder below
